@@ -30,6 +30,12 @@ def model(ctx):
     """design check: bounded exploration of the loop specification itself"""
     r = ctx.model_check("LoopMC.tla", "LoopMC.cfg", workers=4, timeout=900,
                         extra=["-simulate", "num=%d" % (300 if ctx.quick else 6000), "-depth", "60", "-seed", str(ctx.seed)])
-    ctx.cov["model_exploration"] = "TLC simulation mode (random walks of the specification, invariants checked in every state)"
+    ctx.cov["model_exploration"] = ("Loop (property-level): TLC simulation mode, invariants in every state; LoopImpl (the transcribed mechanism: rotation, "
+                                    "budget, wait->job move, timer expiry, timeout computation) joint with Loop: exhaustive BFS per workload, "
+                                    "invariant Refines = every mechanism step is allowed by the property-level guards")
+    # the mechanism refines the property-level specification, for every schedule of three workloads
+    for wl in ("one", "mix", "sat"):
+        r2 = ctx.model_check("LoopImplMC.tla", "LoopImplMC_%s.cfg" % wl, workers=4, timeout=900)
+        ctx.check_vacuity(r2, ["MTop", "MPoll", "MRunLevel"])
     ctx.check_vacuity(r, ["JobAdd", "JobDel", "TimerAdd", "TimerDel", "PollAdd", "PollDel", "SigAdd", "SigDel", "RunBegin",
                           "RunEnd", "CbJob", "CbTimer", "ACbFd", "CbSig", "Poll"])
